@@ -105,6 +105,12 @@ int h_rand_bytes(unsigned char *buf, int n) {
     return 1;
 }
 
+void h_transcript_note(const char *s) {
+    pthread_mutex_lock(&bufmu);
+    hb_add(&transcript, s, strlen(s));
+    pthread_mutex_unlock(&bufmu);
+}
+
 /* ------------------------------------------------------------ regex oracle */
 struct rxent {
     const regex_t *preg;
@@ -280,6 +286,8 @@ void *h_malloc(size_t n, const char *fn, int line) {
     p = malloc(n);
     if (p && !strcmp(fn, "newrequest"))
         rq_register(p);
+    if (p && (!strcmp(fn, "parsenaptrrr") || !strcmp(fn, "parsesrvrr")))
+        memset(p, 0x55, n); /* uninitialised record fields show up as 'U' runs */
     return p;
 }
 void *h_calloc(size_t a, size_t b, const char *fn, int line) {
